@@ -188,6 +188,13 @@ func (p pacedFS) Symlink(o, n string) error           { defer p.nap(); return os
 func (p pacedFS) CreateEmpty(x string) error          { defer p.nap(); return fsops.RealFS{}.CreateEmpty(x) }
 
 func replay(in Input) ReplayOut {
+	// watchdog: a history whose queries never return (a lock that is never released) must not hang the check
+	go func() {
+		limit := time.Duration(len(in.Histories))*(time.Duration(in.DeadlineMs)*time.Millisecond*3+5*time.Second) + 30*time.Second
+		time.Sleep(limit)
+		fmt.Println("HUNG: the replay did not finish within", limit)
+		os.Exit(2)
+	}()
 	var out ReplayOut
 	deadline := time.Duration(in.DeadlineMs) * time.Millisecond
 	if deadline == 0 {
